@@ -148,6 +148,10 @@ Theorem C13_scan_chunk_shape : forall pattern star chunk rest,
             (rest = [] \/ exists r, rest = STAR :: r).
 Proof. exact scan_chunk_shape. Qed.
 
+(* the parse of a pattern is unique *)
+Theorem C13_pat_parses_det : forall pattern cks cks', pat_parses pattern cks -> pat_parses pattern cks' -> cks = cks'.
+Proof. exact pat_parses_unique. Qed.
+
 (* a pattern that parses: Match answers as the leftmost matcher, with or
    without validation of the rest of the pattern *)
 Theorem C13_match_parses : forall cr pattern cks name,
